@@ -95,13 +95,17 @@ def check_conversation(core: DCCore, since: int, expect_getkey: tuple, auth_type
         bad.append(("epm-sequence", f"EPM connection events {[e['event'] for e in ev]}"))
     else:
         b, m = ev
-        if b["auth"] is not None or [(c[0], c[1], c[2]) for c in b["contexts"]] != [(0, rrpc.EPM, [rrpc.NDR64])]:
-            bad.append(("epm-bind", f"EPM bind contexts/auth: {b['contexts']} auth={b['auth']}"))
-        if m["opnum"] != 3 or m["ctx_id"] != 0 or not m["bound"]:
+        # what the property fixes: the endpoint mapper is asked (ept_map, opnum 3, on a presentation context the server
+        # accepted for the EPM interface) for the ISD_KEY interface over ncacn_ip_tcp.  Context ids, extra offered
+        # contexts, the port / address placeholders inside the map tower etc. are the client's business.
+        if not any(c[1] == rrpc.EPM and rrpc.NDR64 in c[2] for c in b["contexts"]):
+            bad.append(("epm-bind", f"EPM bind offers no (EPM, NDR64) presentation context: {b['contexts']}"))
+        if m["opnum"] != 3 or not m["bound"]:
             bad.append(("epm-request", f"ept_map opnum={m['opnum']} ctx={m['ctx_id']} bound={m['bound']}"))
         d = m.get("decoded")
-        if not d or d["tower"] != EXPECTED_MAP_TOWER:
-            bad.append(("epm-tower", f"map tower is not ISD_KEY/NDR over ncacn_ip_tcp: {d}"))
+        tw = d["tower"] if d else []
+        if not d or len(tw) < 5 or tw[0] != EXPECTED_MAP_TOWER[0] or [f[0] for f in tw[1:5]] != [repm.PROTO_UUID, repm.PROTO_RPC_CO, repm.PROTO_TCP, repm.PROTO_IP]:
+            bad.append(("epm-tower", f"map tower is not ISD_KEY v1.0 over ncacn_ip_tcp: {d}"))
     ev = isd_c.events
     names = [e["event"] for e in ev]
     if not names or names[0] != "bind" or names[-1] != "request" or any(n != "alter_context" for n in names[1:-1]):
@@ -109,20 +113,21 @@ def check_conversation(core: DCCore, since: int, expect_getkey: tuple, auth_type
         return bad
     b = ev[0]
     ctxs = [(c[0], c[1], c[2]) for c in b["contexts"]]
-    if len(ctxs) != 2 or ctxs[0] != (0, rrpc.ISD_KEY, [rrpc.NDR64]) or ctxs[1][:2] != (1, rrpc.ISD_KEY) or ctxs[1][2][0][0].bytes_le[:8] != rrpc.BTFN_PREFIX:
-        bad.append(("isd-bind-contexts", f"{ctxs}"))
+    if not any(c[1] == rrpc.ISD_KEY and rrpc.NDR64 in c[2] for c in ctxs):
+        bad.append(("isd-bind-contexts", f"no (ISD_KEY, NDR64) presentation context offered: {ctxs}"))
     for e in ev[:-1]:
         if not e["auth"] or e["auth"]["type"] != auth_type or e["auth"]["level"] != 6:
             bad.append(("isd-auth-level", f"{e['event']} auth={e['auth']} expected type {auth_type} level 6 (PKT_PRIVACY)"))
     r = ev[-1]
-    if r["opnum"] != 0 or r["ctx_id"] != 0 or not r["bound"]:
+    if r["opnum"] != 0 or not r["bound"]:
         bad.append(("isd-request-target", f"opnum={r['opnum']} ctx_id={r['ctx_id']} bound={r['bound']}"))
     if not r.get("auth") or r["auth"]["level"] != 6 or r["auth"]["type"] != auth_type:
         bad.append(("isd-auth-level", f"request auth={r.get('auth')}"))
     if not r.get("sealed") or r.get("wire_stub_equals_plain"):
         bad.append(("request-not-sealed", f"GetKey stub travelled in clear (sealed={r.get('sealed')}, unwrap_error={r.get('unwrap_error')})"))
-    if r.get("vt") != EXPECTED_VT:
-        bad.append(("verification-trailer", f"verification trailer {r.get('vt')} != PCONTEXT(ISD_KEY, NDR64)+END"))
+    vt = r.get("vt")
+    if not vt or not any((c & 0x3FFF) == 2 and v == EXPECTED_VT[0][1] for c, v in vt) or not vt[-1][0] & 0x4000:
+        bad.append(("verification-trailer", f"verification trailer {vt} lacks PCONTEXT(ISD_KEY, NDR64) / END"))
     elif r.get("vt_offset") != r["getkey_consumed"] + (-r["getkey_consumed"] % 4):
         bad.append(("verification-trailer-offset", f"vt at {r.get('vt_offset')} but stub ends at {r['getkey_consumed']}"))
     gk = r.get("getkey")
@@ -134,14 +139,8 @@ def check_conversation(core: DCCore, since: int, expect_getkey: tuple, auth_type
             bad.append(("getkey-arguments", f"GetKey({len(got[0])}B sd, {got[1]}, {got[2:]}) expected ({len(expect_getkey[0])}B sd, {expect_getkey[1]}, {expect_getkey[2:]}); sd equal: {got[0] == expect_getkey[0]}"))
     for c in conns:
         for ptype, flags, drep, call_id, ver in c.ev_headers:
-            if ver != b"\x05\x00" or drep != rrpc.DREP_LE or (flags & 0x03) != 0x03 or (flags & rrpc.PFC_OBJECT_UUID):
-                bad.append(("pdu-header-fields", f"{c.kind} PDU type {ptype}: version {ver.hex()} drep {drep.hex()} flags 0x{flags:02x} (expected 5.0, little-endian/ASCII/IEEE, FIRST|LAST, no object UUID)"))
-        ids = [h[3] for h in c.ev_headers]
-        if any(i == 0 for i in ids):
-            bad.append(("pdu-header-fields", f"{c.kind} connection used call id 0: {ids}"))
-    r_obj = isd_c.events[-1].get("obj") if isd_c.events else None
-    if r_obj is not None:
-        bad.append(("pdu-header-fields", f"GetKey request carries an object UUID {r_obj}"))
+            if ver != b"\x05\x00" or drep != rrpc.DREP_LE or (flags & 0x03) != 0x03:
+                bad.append(("pdu-header-fields", f"{c.kind} PDU type {ptype}: version {ver.hex()} drep {drep.hex()} flags 0x{flags:02x} (a conforming server needs 5.0, little-endian/ASCII/IEEE for these stubs, unfragmented)"))
     ports = [p for (_, _, p) in connect_log]
     if ports != [135, isd_port]:
         bad.append(("ports-used", f"connections to ports {ports}, expected [135, {isd_port}]"))
